@@ -102,6 +102,9 @@ def transition_closures(cx, path):
                     continue
                 seen.add(bi)
                 cb = cx.facts.bodies[f[2]]
+                # helpers that did not exist on the reference tree and are called from the closure are part of it
+                from acverif.inline import inlined_body
+                cb = inlined_body(cx.facts, cb)
                 rows = Sym(cx.facts, cb, env={1: f}).rows()
                 out.append((c, cb, rows, r))
     return b, out
